@@ -43,13 +43,13 @@ class __ol_iter_wrapper:
 
 from ast import *
 
-from oneliner.reserved_identifiers import OL_ITER_WRAPPER
+from oneliner.reserved_identifiers import OL_ITER_WRAPPER, ol_builtin
 
 iter_wrapper_name = Name(id=OL_ITER_WRAPPER, ctx=Load())
 iter_wrapper_body = NamedExpr(
     target=Name(id=OL_ITER_WRAPPER, ctx=Store()),
     value=Call(
-        func=Name(id="type", ctx=Load()),
+        func=ol_builtin("type"),
         args=[
             Constant(value=OL_ITER_WRAPPER),
             Tuple(elts=[], ctx=Load()),
@@ -72,12 +72,12 @@ iter_wrapper_body = NamedExpr(
                             value=List(
                                 elts=[
                                     Call(
-                                        func=Name(id="setattr", ctx=Load()),
+                                        func=ol_builtin("setattr"),
                                         args=[
                                             Name(id="self", ctx=Load()),
                                             Constant(value="it"),
                                             Call(
-                                                func=Name(id="iter", ctx=Load()),
+                                                func=ol_builtin("iter"),
                                                 args=[Name(id="it", ctx=Load())],
                                                 keywords=[],
                                             ),
@@ -85,7 +85,7 @@ iter_wrapper_body = NamedExpr(
                                         keywords=[],
                                     ),
                                     Call(
-                                        func=Name(id="setattr", ctx=Load()),
+                                        func=ol_builtin("setattr"),
                                         args=[
                                             Name(id="self", ctx=Load()),
                                             Constant(value="_break"),
@@ -126,10 +126,10 @@ iter_wrapper_body = NamedExpr(
                                 ctx=Load(),
                             ),
                             body=Call(
-                                func=Name(id="next", ctx=Load()),
+                                func=ol_builtin("next"),
                                 args=[
                                     Call(
-                                        func=Name(id="iter", ctx=Load()),
+                                        func=ol_builtin("iter"),
                                         args=[List(elts=[], ctx=Load())],
                                         keywords=[],
                                     )
@@ -137,7 +137,7 @@ iter_wrapper_body = NamedExpr(
                                 keywords=[],
                             ),
                             orelse=Call(
-                                func=Name(id="next", ctx=Load()),
+                                func=ol_builtin("next"),
                                 args=[
                                     Attribute(
                                         value=Name(id="self", ctx=Load()),
